@@ -321,6 +321,15 @@ def call_builtin(eng, p, args, kwargs, fr, node):
             r = hook(eng, fr, args[0], kwargs.get("key"), node)
             if r is not None:
                 return r
+        key = kwargs.get("key")
+        if key is not None:
+            # sorted by a key function: an uninterpreted function of the sequence, one symbol per key expression
+            import ast as _ast
+            src = _ast.unparse(key.t.node) if (key.k == "py" and getattr(key.t, "node", None) is not None) else "key"
+            f = z3.Function(f"sorted[{src}]", V, V)
+            r = f(eng.seq_V(args[0], fr))
+            st.assume(z3.And(T.is_VObj(r), T.tag(r) == T.TAG["list"], T.slen(r) == T.slen(eng.seq_V(args[0], fr))))
+            return SV("V", r, meta={"seq": True})
         return SV("V", T.sorted_of(eng.seq_V(args[0], fr)), meta={"seq": True})
     if name in ("filter", "map"):
         hook = eng.reg.spec.get("__" + name + "__")
